@@ -128,6 +128,19 @@ def run(chk):
             decls.append("class %s%s { public constructor() -> %s = default; }" % (n, ext, n))
         rng.shuffle(decls)
         inputs.append(("\n".join(decls) + "\nfunction main() -> void { }").encode())
+    # the same class names with a different inheritance relation (and a use that the relation decides) in consecutive inputs: the shared
+    # analyser instance must judge each program by its own hierarchy, like a fresh one
+    for _ in range(200 if chk.thorough else 30):
+        a, b, c = rng.sample(POOL, 3)
+        use = rng.choice(["%s v = new %s();" % (a, b), "%s v = new %s(); %s w = v;" % (b, b, a), "takes(new %s());" % b,
+                          "%s[] vs = {new %s()};" % (a, b)])
+        shapes = ["class %s { public constructor() -> %s = default; }\nclass %s extends %s { public constructor() -> %s = default; }" % (a, a, b, a, b),
+                  "class %s { public constructor() -> %s = default; }\nclass %s { public constructor() -> %s = default; }" % (a, a, b, b),
+                  "class %s extends %s { public constructor() -> %s = default; }\nclass %s { public constructor() -> %s = default; }" % (a, b, a, b, b),
+                  "class %s { public constructor() -> %s = default; }\nclass %s extends %s { public constructor() -> %s = default; }\nclass %s extends %s { public constructor() -> %s = default; }" % (a, a, c, a, c, b, c, b)]
+        rng.shuffle(shapes)
+        for sh in shapes[:3]:
+            inputs.append((sh + "\nfunction takes(%s p) -> void { }\nfunction main() -> void { %s }" % (a, use)).encode())
     for _ in range(40 if chk.thorough else 10):
         a, b = rng.sample(POOL, 2)
         inputs.append(("class %s<T extends %s<T>> { public constructor() -> %s<T> = default; }\nclass %s<U extends %s<U>> { public constructor() -> %s<U> = default; }\n"
